@@ -698,6 +698,450 @@ example : le (ofRatParts false (10 ^ 21) 1) (abs (.fin false 0x17333333333333 (-
 example : Spec.Dev.isTie ((ratOf 0x17333333333333 (-52)).1 * 10 ^ 1) (ratOf 0x17333333333333 (-52)).2 = false := by decide +kernel
 example : Spec.toFixed (.fin false 0x17333333333333 (-52)) (.num (ofInt 1)) = .str [49, 46, 52] := by decide +kernel
 
+/-! ## toExponential (§15.7.4.6) -/
+
+set_option maxRecDepth 1000000 in
+theorem expTable2 : ∀ E : Fin 1000, 10 ≤ E.val → expDigits E.val = Spec.decimalStr E.val := by
+  decide +kernel
+
+/-- §15.7.4.6 steps 10–13: the layout of the digit string `ms` with exponent `ex` -/
+def es5ExpLayout (ms : Str) (ex : Int) : Str :=
+  (if ms.length ≤ 1 then ms else ms.take 1 ++ 46 :: ms.drop 1) ++ Spec.expSuffix ex
+
+/-- strconv's %e layout of the digits `c :: cs` (trailing zeros possibly trimmed: `z` of them) with
+    precision `cs.length + z` is the ES5 toExponential layout of the full digit string whenever the
+    exponent needs at least two digits. -/
+theorem exp_layout (neg : Bool) (c : Nat) (cs : List Nat) (z : Nat) (dp : Int)
+    (h10 : 10 ≤ (dp - 1).natAbs) (h1000 : (dp - 1).natAbs < 1000) :
+    fmtE neg ⟨c :: cs, dp⟩ ((cs.length + z : Nat) : Int)
+      = (if neg then [45] else []) ++ es5ExpLayout ((c :: cs ++ List.replicate z 0).map digitCh) (dp - 1) := by
+  have tab := expTable2 ⟨(dp - 1).natAbs, h1000⟩ h10
+  simp only at tab
+  simp only [fmtE, es5ExpLayout, Spec.expSuffix]
+  by_cases hp : cs.length + z = 0
+  · have hcs : cs = [] := by cases cs with | nil => rfl | cons _ _ => simp at hp
+    have hz : z = 0 := by omega
+    subst hcs; subst hz
+    simp [tab]
+  · have hpos : ((cs.length + z : Nat) : Int) > 0 := by omega
+    have hm : min (c :: cs).length ((cs.length + z) + 1) = cs.length + 1 := by simp
+    have hlen : ¬ ((List.map digitCh (c :: cs ++ List.replicate z 0)).length ≤ 1) := by
+      simp only [List.length_map, List.length_cons, List.length_append, List.length_replicate]; omega
+    simp only [hpos, if_true, Int.toNat_natCast, hm, hlen, if_false]
+    have hz : cs.length + z + 1 - max (cs.length + 1) 1 = z := by omega
+    simp [hz, digitCh, tab]
+
+
+theorem natDigitsAux_head (n : Nat) : ∀ fuel acc, n ≠ 0 → fuel ≥ n →
+    ∃ d rest, d ≠ 0 ∧ natDigitsAux fuel n acc = d :: rest := by
+  induction n using Nat.strongRecOn with
+  | _ n ih =>
+    intro fuel acc hn hf
+    obtain ⟨k, rfl⟩ : ∃ k, fuel = k + 1 := ⟨fuel - 1, by omega⟩
+    simp only [natDigitsAux, hn, if_false]
+    by_cases h10 : n < 10
+    · have h0 : n / 10 = 0 := Nat.div_eq_of_lt h10
+      have hmod : n % 10 = n := Nat.mod_eq_of_lt h10
+      rw [h0, hmod]
+      refine ⟨n, acc, hn, ?_⟩
+      cases k <;> simp [natDigitsAux]
+    · have hq : n / 10 ≠ 0 := by omega
+      have hlt : n / 10 < n := by omega
+      exact ih (n / 10) hlt k (n % 10 :: acc) hq (by omega)
+
+theorem natDigits_head (n : Nat) (hn : n ≠ 0) : ∃ d rest, d ≠ 0 ∧ natDigits n = d :: rest :=
+  natDigitsAux_head n n [] hn (Nat.le_refl _)
+
+/-- trimming the digits of a non-zero number keeps its (non-zero) leading digit -/
+theorem trim_natDigits (n : Nat) (hn : n ≠ 0) :
+    ∃ c cs z, trimZeros (natDigits n) = c :: cs ∧ natDigits n = c :: cs ++ List.replicate z 0 := by
+  obtain ⟨d, rest, hd, hnd⟩ := natDigits_head n hn
+  obtain ⟨z, hz⟩ := trim_append (natDigits n)
+  cases ht : trimZeros (natDigits n) with
+  | nil =>
+    rw [ht, hnd] at hz
+    cases z with
+    | zero => simp at hz
+    | succ z => simp [List.replicate_succ] at hz; exact absurd hz.1 hd
+  | cons c cs => exact ⟨c, cs, z, rfl, by rw [ht] at hz; exact hz⟩
+
+theorem scale10_den_pos (num den : Nat) (sh : Int) (hd : 0 < den) : 0 < (scale10 num den sh).2 := by
+  unfold scale10; split
+  · exact hd
+  · exact Nat.mul_pos hd (Nat.pow_pos (by decide))
+
+/-- C06.toExponential_partial (core): for every finite non-zero double and every digit count f, if the
+    rounding to f+1 significant digits is not an exact tie, the decimal exponent needs two or three
+    digits, and the spec's digit string has its f+1 digits, strconv's `'e'` formatting with the exact
+    half-even digit rule is the §15.7.4.6 string. -/
+theorem toExponential_core (s : Bool) (m : Nat) (e : Int) (f : Nat) (hm : m ≠ 0)
+    (hnt : Spec.Dev.sigTie m e (f + 1) = false)
+    (hlen : (Spec.sigRoundUp m e (f + 1)).1.length = f + 1)
+    (hex : 10 ≤ (Spec.sigRoundUp m e (f + 1)).2.natAbs ∧ (Spec.sigRoundUp m e (f + 1)).2.natAbs < 1000) :
+    formatFloat Spec.exactLib (.fin s m e) .e (f : Int) = Spec.expStr s m e true f := by
+  have hneg : ¬ ((f : Int) < 0) := by omega
+  simp only [formatFloat, hneg, if_false, hm, Spec.exactLib, goFixedSig, formatDigits, Int.toNat_natCast,
+    Spec.expStr, if_true]
+  simp only [Spec.Dev.sigTie] at hnt
+  simp only [Spec.sigRoundUp] at hlen hex
+  have hsm : (s = true ∧ m ≠ 0) ↔ s = true := by simp [hm]
+  cases hr : ratOf m e with
+  | mk num den =>
+    have hden : 0 < den := by have := ratOf_den_pos m e; rw [hr] at this; exact this
+    rw [hr] at hnt hlen hex
+    simp only [sigDigitsWith, Spec.sigRoundUp, hr] at hnt hlen hex ⊢
+    cases hsc : scale10 num den (((f + 1 : Nat) : Int) - decExp num den) with
+    | mk a b =>
+      have hb : 0 < b := by
+        have := scale10_den_pos num den (((f + 1 : Nat) : Int) - decExp num den) hden
+        rw [hsc] at this; exact this
+      rw [hsc] at hnt hlen hex
+      simp only [hsc] at hnt hlen hex ⊢
+      have hrr := rne_eq_rhu a b hb hnt
+      rw [hrr]
+      by_cases hov : Spec.divRHU a b ≥ 10 ^ (f + 1)
+      · -- rounded up to the next power of ten
+        simp only [hov, if_true] at hlen hex ⊢
+        have h1 : (decExp num den + 1 - 1) = decExp num den := by omega
+        have := exp_layout s 1 [] f (decExp num den + 1) (by rw [h1]; exact hex.1) (by rw [h1]; exact hex.2)
+        simp only [List.length_nil, Nat.zero_add, List.nil_append] at this
+        rw [this, h1]
+        simp [es5ExpLayout, hm]
+      · simp only [hov, if_false] at hlen hex ⊢
+        have hr0 : Spec.divRHU a b ≠ 0 := by
+          intro h0; rw [h0] at hlen; simp [natDigits, natDigitsAux] at hlen
+        obtain ⟨c, cs, z, htrim, hfull⟩ := trim_natDigits _ hr0
+        have hz : cs.length + z = f := by
+          rw [hfull] at hlen; simp at hlen; omega
+        have h1 : decExp num den - 1 = decExp num den - 1 := rfl
+        have := exp_layout s c cs z (decExp num den) hex.1 hex.2
+        rw [hz] at this
+        rw [htrim, this, ← hfull]
+        simp [es5ExpLayout, hm]
+
+
+/-- the hypotheses of `toExponential_core` hold for (1.2345e25).toExponential(2) = "1.23e+25" -/
+example : Spec.Dev.sigTie 0x146c4f94f99599 31 3 = false := by decide +kernel
+example : (Spec.sigRoundUp 0x146c4f94f99599 31 3) = ([1, 2, 3], 25) := by decide +kernel
+example : Spec.expStr false 0x146c4f94f99599 31 true 2 = OttoVerif.Str.ofString "1.23e+25" := by decide +kernel
+
+/-! ## toPrecision (§15.7.4.7) -/
+
+/-- in the fixed-notation range the §15.7.4.7 layout of p digits is the §9.8.1 layout (steps 6–8) -/
+theorem precLayout_fixed (ds : List Nat) (ex : Int) (hne : ds ≠ []) (h1 : -6 < ex + 1) (h2 : ex < ds.length)
+    (h21 : ds.length ≤ 21) :
+    Spec.precLayout (ds.map digitCh) ex ds.length = Spec.layout981 ds (ex + 1) := by
+  have hk : 0 < ds.length := List.length_pos_iff.mpr hne
+  have hnexp : ¬ (ex < -6 ∨ ex ≥ (ds.length : Int)) := by omega
+  simp only [Spec.precLayout, hnexp, if_false, Spec.layout981]
+  by_cases c11 : ex = (ds.length : Int) - 1
+  · have c6 : (ds.length : Int) ≤ ex + 1 ∧ ex + 1 ≤ 21 := by omega
+    have hz : (ex + 1 - (ds.length : Int)).toNat = 0 := by omega
+    simp [c11, c6, hz]
+    omega
+  · have c6 : ¬ ((ds.length : Int) ≤ ex + 1 ∧ ex + 1 ≤ 21) := by omega
+    by_cases c12 : ex ≥ 0
+    · have c7 : 0 < ex + 1 ∧ ex + 1 ≤ 21 := by omega
+      have ht : (ex + 1).toNat = ex.toNat + 1 := by omega
+      have c6a : ¬ ((ds.length : Int) ≤ ex + 1) := by omega
+      simp [c11, c6a, c12, c7, ht]
+    · have c7 : ¬ (0 < ex + 1) := by omega
+      have c8 : -6 < ex + 1 ∧ ex + 1 ≤ 0 := by omega
+      have c6a : ¬ ((ds.length : Int) ≤ ex + 1) := by omega
+      have hn : (-(ex + 1)).toNat = (-(ex + 1)).toNat := rfl
+      simp [c11, c6a, c12, c7, c8]
+
+/-- strconv's %g with precision p on exactly p digits (no trimmed zeros) is the ES5 toPrecision
+    layout, for every digit string, outside exponents −5, −6 (Go switches to %e below −4) and
+    one-digit exponents in exponential notation. -/
+theorem prec_layout (neg : Bool) (c : Nat) (cs : List Nat) (ex : Int)
+    (h21 : (c :: cs).length ≤ 21)
+    (hsmall : ex ≠ -5 ∧ ex ≠ -6)
+    (hexp : (ex < -6 ∨ ex ≥ ((c :: cs).length : Int)) → 10 ≤ ex.natAbs ∧ ex.natAbs < 1000) :
+    formatDigits false neg ⟨c :: cs, ex + 1⟩ ((c :: cs).length : Int) .g
+      = (if neg then [45] else []) ++ Spec.precLayout ((c :: cs).map digitCh) ex (c :: cs).length := by
+  have hx : ex + 1 - 1 = ex := by omega
+  simp only [formatDigits, if_false, Bool.false_eq_true, ite_self, hx]
+  by_cases hE : ex < -6 ∨ ex ≥ ((c :: cs).length : Int)
+  · -- exponential notation on both sides
+    have hgo : ex < -4 ∨ ex ≥ ((c :: cs).length : Int) := by omega
+    obtain ⟨e10, e1000⟩ := hexp hE
+    have hl : ((c :: cs).length : Int) - 1 = ((cs.length + 0 : Nat) : Int) := by simp
+    rw [if_pos hgo, hl]
+    have := exp_layout neg c cs 0 (ex + 1) (by rw [hx]; exact e10) (by rw [hx]; exact e1000)
+    rw [this, hx]
+    simp only [List.replicate_zero, List.append_nil, es5ExpLayout, Spec.precLayout, hE, if_true]
+    have : ((List.map digitCh (c :: cs)).length ≤ 1) ↔ ((c :: cs).length = 1) := by simp
+    simp only [this]
+  · have hgo : ¬ (ex < -4 ∨ ex ≥ ((c :: cs).length : Int)) := by omega
+    rw [if_neg hgo]
+    rw [fixedForm neg (c :: cs) (ex + 1) (by simp) (by omega) (by omega)]
+    rw [precLayout_fixed (c :: cs) ex (by simp) (by omega) (by omega) h21]
+
+
+theorem trim_id (ds : List Nat) (h : ds.getLast? ≠ some 0) : trimZeros ds = ds := by
+  unfold trimZeros
+  cases hr : ds.reverse with
+  | nil => simp [List.reverse_eq_nil_iff.mp hr]
+  | cons a t =>
+    have hlast : ds.getLast? = some a := by
+      rw [← List.reverse_reverse ds, hr]; simp
+    have ha : a ≠ 0 := by intro h0; rw [hlast, h0] at h; exact h rfl
+    have : (a :: t).dropWhile (· = 0) = a :: t := by simp [List.dropWhile, ha]
+    rw [this, ← hr, List.reverse_reverse]
+
+/-- C06.toPrecision_partial (core): for every finite non-zero double and precision 1..21, outside the
+    regions (exact tie; a trailing zero among the p digits; exponent −5/−6; one-digit exponent in
+    exponential notation), strconv's `'g'` formatting with the exact half-even digit rule is the
+    §15.7.4.7 string. -/
+theorem toPrecision_core (s : Bool) (m : Nat) (e : Int) (p : Nat) (hp1 : 1 ≤ p) (hp21 : p ≤ 21) (hm : m ≠ 0)
+    (hnt : Spec.Dev.sigTie m e p = false)
+    (hlen : (Spec.sigRoundUp m e p).1.length = p)
+    (hlast : ¬ (p > 1 ∧ (Spec.sigRoundUp m e p).1.getLast? = some 0))
+    (hsmall : (Spec.sigRoundUp m e p).2 ≠ -5 ∧ (Spec.sigRoundUp m e p).2 ≠ -6)
+    (hexp : ((Spec.sigRoundUp m e p).2 < -6 ∨ (Spec.sigRoundUp m e p).2 ≥ (p : Int)) →
+      10 ≤ (Spec.sigRoundUp m e p).2.natAbs ∧ (Spec.sigRoundUp m e p).2.natAbs < 1000) :
+    formatFloat Spec.exactLib (.fin s m e) .g (p : Int) = Spec.precStr s m e p := by
+  have hneg : ¬ ((p : Int) < 0) := by omega
+  have hp0 : ¬ ((p : Int) = 0) := by omega
+  simp only [formatFloat, hneg, if_false, hm, hp0, Spec.exactLib, goFixedSig, Int.toNat_natCast, Spec.precStr]
+  simp only [Spec.Dev.sigTie] at hnt
+  have hsm : (if s = true ∧ m ≠ 0 then ([45] : Str) else []) = (if s = true then [45] else []) := by simp [hm]
+  rw [hsm]
+  cases hr : ratOf m e with
+  | mk num den =>
+    have hden : 0 < den := by have := ratOf_den_pos m e; rw [hr] at this; exact this
+    rw [hr] at hnt
+    simp only [Spec.sigRoundUp, hr] at hnt hlen hlast hsmall hexp ⊢
+    simp only [sigDigitsWith]
+    cases hsc : scale10 num den ((p : Int) - decExp num den) with
+    | mk a b =>
+      have hb : 0 < b := by
+        have := scale10_den_pos num den ((p : Int) - decExp num den) hden
+        rw [hsc] at this; exact this
+      simp only [hsc] at hnt hlen hlast hsmall hexp ⊢
+      have hrr := rne_eq_rhu a b hb hnt
+      rw [hrr]
+      by_cases hov : Spec.divRHU a b ≥ 10 ^ p
+      · simp only [hov, if_true] at hlen hlast hsmall hexp ⊢
+        -- 1000…0 has a trailing zero unless p = 1
+        have hp : p = 1 := by
+          by_cases h1 : p = 1
+          · exact h1
+          · exfalso; apply hlast
+            refine ⟨by omega, ?_⟩
+            obtain ⟨q, rfl⟩ : ∃ q, p = q + 2 := ⟨p - 2, by omega⟩
+            have : q + 2 - 1 = q + 1 := by omega
+            rw [this, List.replicate_succ', ← List.cons_append, List.getLast?_append]
+            simp
+        subst hp
+        have h1 : decExp num den + 1 = decExp num den + 1 := rfl
+        have := prec_layout s 1 [] (decExp num den) (by simp) hsmall (by simpa using hexp)
+        simpa using this
+      · simp only [hov, if_false] at hlen hlast hsmall hexp ⊢
+        have hr0 : Spec.divRHU a b ≠ 0 := by
+          intro h0; rw [h0] at hlen; simp [natDigits, natDigitsAux] at hlen; omega
+        obtain ⟨d, rest, hd, hnd⟩ := natDigits_head _ hr0
+        have hl : (natDigits (Spec.divRHU a b)).getLast? ≠ some 0 := by
+          by_cases h1 : p = 1
+          · rw [hnd] at hlen ⊢
+            have : rest = [] := by cases rest with | nil => rfl | cons _ _ => simp at hlen; omega
+            subst this; simpa using hd
+          · intro h; exact hlast ⟨by omega, h⟩
+        rw [trim_id _ hl, hnd]
+        rw [hnd] at hlen hlast
+        have hx : decExp num den - 1 + 1 = decExp num den := by omega
+        have := prec_layout s d rest (decExp num den - 1) (by rw [hlen]; exact hp21) hsmall
+          (by rw [hlen]; exact hexp)
+        rw [hx, hlen] at this
+        exact this
+
+
+/-- the hypotheses of `toPrecision_core` hold for (123.456).toPrecision(4) = "123.5" and
+    (1.2345e25).toPrecision(3) = "1.23e+25" -/
+example : Spec.Dev.sigTie 0x1edd2f1a9fbe77 (-46) 4 = false := by decide +kernel
+example : Spec.sigRoundUp 0x1edd2f1a9fbe77 (-46) 4 = ([1, 2, 3, 5], 2) := by decide +kernel
+example : Spec.precStr false 0x1edd2f1a9fbe77 (-46) 4 = OttoVerif.Str.ofString "123.5" := by decide +kernel
+example : Spec.precStr false 0x146c4f94f99599 31 3 = OttoVerif.Str.ofString "1.23e+25" := by decide +kernel
+
+/-! ## parseInt (§15.1.2.2) -/
+
+theorem digitVal_table : ∀ c : Fin 128, digitValue c.val < 36 → GoStd.digitVal c.val = some (digitValue c.val) := by
+  decide +kernel
+
+theorem digitValue_lt_128 (c : Nat) (h : digitValue c < 36) : c < 128 := by
+  unfold digitValue at h
+  split at h
+  · omega
+  · split at h
+    · omega
+    · split at h
+      · omega
+      · omega
+
+theorem digitVal_eq (c : Nat) (h : digitValue c < 36) : GoStd.digitVal c = some (digitValue c) :=
+  digitVal_table ⟨c, digitValue_lt_128 c h⟩ h
+
+/-- a fold whose step behaves like "append one valid digit" on valid digits -/
+theorem fold_digits (b : Nat) (F : Option (Nat × Bool) → Nat → Option (Nat × Bool))
+    (hF : ∀ n c, digitValue c < b → F (some (n, false)) c = some (n * b + digitValue c, false))
+    (z : List Nat) (hz : ∀ c ∈ z, digitValue c < b) (n : Nat) :
+    z.foldl F (some (n, false)) = some (z.foldl (fun n c => n * b + digitValue c) n, false) := by
+  induction z generalizing n with
+  | nil => rfl
+  | cons c t ih =>
+    have hc : digitValue c < b := hz c (by simp)
+    have ht : ∀ x ∈ t, digitValue x < b := fun x hx => hz x (by simp [hx])
+    simp only [List.foldl_cons, hF n c hc]
+    exact ih ht _
+
+theorem parseUint_digits (b : Nat) (hb2 : 2 ≤ b) (hb36 : b ≤ 36) (z : List Nat) (hne : z ≠ [])
+    (hz : ∀ c ∈ z, digitValue c < b) :
+    GoStd.parseUint z b =
+      (if z.foldl (fun n c => n * b + digitValue c) 0 ≥ 2 ^ 64 then .range
+       else .ok (z.foldl (fun n c => n * b + digitValue c) 0 : Nat)) := by
+  have hb0 : ¬ (b = 0) := by omega
+  have hbr : ¬ (b < 2 ∨ b > 36) := by omega
+  have hemp : z.isEmpty = false := by cases z <;> simp_all
+  unfold GoStd.parseUint
+  simp only [hemp, Bool.false_eq_true, if_false, hb0, decide_false, hbr]
+  rw [fold_digits b _ _ z hz 0]
+  · simp
+  · intro n x hx
+    have hdv := digitVal_eq x (by omega)
+    have hnot : ¬ (digitValue x ≥ b) := by omega
+    simp [hdv, hnot]
+
+/-- strconv.ParseInt on a non-empty string of valid digits in an explicit base 2..36 -/
+theorem parseInt_digits (b : Nat) (hb2 : 2 ≤ b) (hb36 : b ≤ 36) (z : List Nat) (hne : z ≠ [])
+    (hz : ∀ c ∈ z, digitValue c < b) :
+    GoStd.parseInt z b =
+      (if z.foldl (fun n c => n * b + digitValue c) 0 ≥ 2 ^ 63 then .range
+       else .ok (z.foldl (fun n c => n * b + digitValue c) 0 : Nat)) := by
+  have hpu := parseUint_digits b hb2 hb36 z hne hz
+  obtain ⟨c, t, rfl⟩ := List.exists_cons_of_ne_nil hne
+  have hc : digitValue c < b := hz c (by simp)
+  have h43 : GoStd.ch '+' = 43 := by decide
+  have h45 : GoStd.ch '-' = 45 := by decide
+  have hplus : c ≠ GoStd.ch '+' := by
+    rw [h43]; intro h; subst h; simp [digitValue] at hc; omega
+  have hminus : c ≠ GoStd.ch '-' := by
+    rw [h45]; intro h; subst h; simp [digitValue] at hc; omega
+  simp only [GoStd.parseInt, List.isEmpty_cons, Bool.false_eq_true, if_false, hplus, hminus, hpu]
+  generalize List.foldl (fun n c => n * b + digitValue c) 0 (c :: t) = v
+  by_cases h64 : v ≥ 2 ^ 64
+  · have h63 : v ≥ 2 ^ 63 := by omega
+    simp [h64, h63]
+  · by_cases h63 : v ≥ 2 ^ 63
+    · simp [h64, h63]; omega
+    · simp [h64, h63]; omega
+
+
+theorem signSplit_eq (input : Str) : signSplit input = Spec.signOf input := by
+  cases input with
+  | nil => rfl
+  | cons c r =>
+    simp only [signSplit, Spec.signOf]
+    by_cases h43 : c = 43
+    · subst h43; simp
+    · by_cases h45 : c = 45
+      · subst h45; simp
+      · simp [h43, h45]
+
+theorem hexStrip_eq (strip : Bool) (input : Str) (radix : Nat) :
+    hexStrip strip input radix = Spec.hexPrefix strip input radix := by
+  match input with
+  | [] => rfl
+  | [_] => rfl
+  | a :: c :: r =>
+    simp only [hexStrip, Spec.hexPrefix]
+    by_cases h : a = 48 ∧ strip = true ∧ (c = 120 ∨ c = 88)
+    · have h' : strip = true ∧ a = 48 ∧ (c = 120 ∨ c = 88) := ⟨h.2.1, h.1, h.2.2⟩
+      rw [if_pos h, if_pos h']
+    · have h' : ¬ (strip = true ∧ a = 48 ∧ (c = 120 ∨ c = 88)) := fun x => h ⟨x.2.1, x.1, x.2.2⟩
+      rw [if_neg h, if_neg h']
+
+theorem hexPrefix_radix (strip : Bool) (rs : List Nat) (radix : Nat) (h2 : 2 ≤ radix) (h36 : radix ≤ 36) :
+    2 ≤ (Spec.hexPrefix strip rs radix).2 ∧ (Spec.hexPrefix strip rs radix).2 ≤ 36 := by
+  match rs with
+  | [] => exact ⟨h2, h36⟩
+  | [_] => exact ⟨h2, h36⟩
+  | a :: x :: t =>
+    simp only [Spec.hexPrefix]
+    split
+    · simp
+    · exact ⟨h2, h36⟩
+
+/-- C06.parseInt_spec: for EVERY white-space-stripped input (any byte/code-unit list) and EVERY radix
+    value r = ToInt32(radix), outside the two deviation regions (digits ≥ 2^63; "-0"), otto's parseInt
+    body (sign, radix defaulting, 0x strip, digit prefix, strconv.ParseInt) returns the Number value
+    §15.1.2.2 prescribes.  No library parameter: strconv.ParseInt's digit loop is modelled and proved. -/
+theorem parseInt_body (input : Str) (r : Int) (hdev : Spec.Dev.pintBody input r = []) :
+    parseIntBody input r = Spec.parseIntBody input r := by
+  simp only [parseIntBody, Spec.parseIntBody, signSplit_eq, hexStrip_eq]
+  simp only [Spec.Dev.pintBody] at hdev
+  by_cases hbad : r ≠ 0 ∧ (r < 2 ∨ r > 36)
+  · simp [hbad]
+  · simp only [hbad, if_false] at hdev
+    have hbad' : (decide (r ≠ 0 ∧ (r < 2 ∨ r > 36))) = false := by simpa using hbad
+    simp only [hbad', Bool.false_eq_true, if_false, if_neg hbad]
+    -- radix bounds
+    have hr2 : 2 ≤ (if r = 0 then 10 else r.toNat) ∧ (if r = 0 then 10 else r.toNat) ≤ 36 := by
+      by_cases h0 : r = 0
+      · simp [h0]
+      · simp only [h0, if_false]; omega
+    generalize hR : (if r = 0 then 10 else r.toNat) = R at *
+    generalize hS : (decide (r = 0 ∨ r = 16)) = strip at *
+    have hb := hexPrefix_radix strip (Spec.signOf input).2 R hr2.1 hr2.2
+    generalize hR' : (Spec.hexPrefix strip (Spec.signOf input).2 R).2 = R' at *
+    generalize hI : (Spec.hexPrefix strip (Spec.signOf input).2 R).1 = inp at *
+    generalize hz : List.takeWhile (fun c => decide (digitValue c < R')) inp = z at *
+    have hzall : ∀ c ∈ z, digitValue c < R' := by
+      intro c hc
+      rw [← hz] at hc
+      have := takeWhile_all _ _ c hc
+      simpa using this
+    by_cases hze : z = []
+    · -- no digits: NaN on both sides (also when the input was empty)
+      subst hze
+      have hsyn : GoStd.parseInt [] R' = .syntax := by simp [GoStd.parseInt]
+      simp [hsyn]
+    · have hzi : z.isEmpty = false := by cases z <;> simp_all
+      have hin : input.isEmpty = false := by
+        cases input with
+        | nil =>
+          exfalso; apply hze
+          rw [← hz, ← hI]; simp [Spec.signOf, Spec.hexPrefix]
+        | cons _ _ => rfl
+      have hin2 : (Spec.signOf input).2.isEmpty = false := by
+        cases hs : (Spec.signOf input).2 with
+        | nil =>
+          exfalso; apply hze
+          rw [← hz, ← hI, hs]; simp [Spec.hexPrefix]
+        | cons _ _ => rfl
+      simp only [hzi, Bool.false_eq_true, if_false] at hdev
+      simp only [hin, hin2, hzi, Bool.false_eq_true, if_false]
+      rw [parseInt_digits R' hb.1 hb.2 z hze hzall]
+      generalize List.foldl (fun n c => n * R' + digitValue c) 0 z = v at *
+      have hv : ¬ (v ≥ 2 ^ 63) := by
+        intro h; simp [h] at hdev
+      simp only [hv, if_false]
+      by_cases hv0 : v = 0
+      · subst hv0
+        have hneg : (Spec.signOf input).1 = false := by
+          cases hn : (Spec.signOf input).1 with
+          | false => rfl
+          | true => simp [hn] at hdev
+        simp [hneg, ofInt]
+      · simp [hv0]
+
+
+/-- `parseInt_body` is not vacuous: "0x1F", "-12abc" with radix 0, "zz" with radix 36 are outside the regions -/
+example : Spec.Dev.pintBody (OttoVerif.Str.ofString "0x1F") 0 = [] := by decide +kernel
+example : Spec.Dev.pintBody (OttoVerif.Str.ofString "-12abc") 0 = [] := by decide +kernel
+example : Spec.parseIntBody (OttoVerif.Str.ofString "-12abc") 0 = ofInt (-12) := by decide +kernel
+example : Spec.parseIntBody (OttoVerif.Str.ofString "zz") 36 = ofInt 1295 := by decide +kernel
+
 /-! ## non-vacuity of the layout theorem and witnesses of the deviation regions -/
 
 def fv (b : UInt64) : FV := decode b
